@@ -240,7 +240,7 @@ var reTemplate = regexp.MustCompile(`^(/[a-z0-9._~-]+)+$`)
 // canary regress/C20/f39-spec-url-names-a-directory.json); the class is generated since.
 const genSpecDirClass = true
 
-var specDirURLs = []string{"/specs/", "/a/b/", "https://h.test/dir/", "/api/spec/", "/dir/sub/"}
+var specDirURLs = []string{"/specs/", "/a/b/", "https://h.test/dir/", "/api/spec/", "/dir/sub/", "/specs//", "https://h.test/apidocs//", "/a/b.json///?x=1"}
 
 // relTo returns p as a template below base, or "" when p is not below it.
 func relTo(base, p string) string {
